@@ -30,7 +30,10 @@ PROP = {
                       "inside_touching_checked", "outside_checked", "orientation_checked", "multi_path_calls"],
                      ["samples_judged_inside", "samples_judged_outside", "polygons_simple", "polygons_selfint_parity_judged",
                       "inside_touching_checked", "outside_checked", "orientation_checked", "multi_path_calls"]),
+    "timeout": _q(150, 3600),
     "jobs": [
-        {"mon": "mon_c08", "cfg": "plain", "cases": _q(150000, 4500000)},
+        # address-space cap and a short watchdog: a defect in the clip loop that allocates without bound must end as a
+        # crash/timeout report, not take the machine down (the monitors themselves need < 100 MB)
+        {"mon": "mon_c08", "cfg": "plain", "cases": _q(150000, 4500000), "prefix": ["prlimit", "--as=4000000000"]},
     ],
 }
